@@ -43,7 +43,7 @@ def run():
 
     # Tie B: frame_of vs RQ Compute.window; emit_frame vs the OVER (...) text -- exhaustive
     srcs = []                  # every program any stream compiles: replayed through the back-end hooks below
-    srcs += C.run(ck, supports_from(info))
+    corr_srcs = C.run(ck, supports_from(info))
     # Tie B': scope_run (flatten.rs partition / frame bookkeeping) vs RQ Compute.window of nested programs
     srcs += C.run_scope(ck)
 
@@ -59,7 +59,7 @@ def run():
     stream("random", S.random_cases(ck, ck.n(1000, 8000) * mult))
 
     # Tie C: the back end's own functions, observed through the verif hooks on every compile above
-    H.run_reorder(ck, H.REORDER_DIRECTED + srcs)
+    H.run_reorder(ck, H.REORDER_DIRECTED + srcs, one_target_srcs=corr_srcs, targets=targets)
 
     ck.proof_broken_violation(found_input=bool(ck.violations))
     ck.assumptions += [
